@@ -47,9 +47,20 @@ pub fn main(args: &[String]) -> i32 {
             }
             run_check(&id, &tier, replay.as_deref())
         }
+        "gen-corpus-extra" => {
+            // adds the hand-scripted legacy directories to an existing corpus
+            let out = args.get(1).map(std::path::PathBuf::from).unwrap_or_else(crate::ecorpus::corpus_dir);
+            match crate::ecorpus::generate_legacy_fork(&out) {
+                Ok(()) => 0,
+                Err(e) => {
+                    eprintln!("gen-corpus-extra failed: {e}");
+                    2
+                }
+            }
+        }
         "gen-corpus" => {
             let out = args.get(1).map(std::path::PathBuf::from).unwrap_or_else(crate::ecorpus::corpus_dir);
-            match crate::ecorpus::generate(&out) {
+            match crate::ecorpus::generate(&out).and_then(|_| crate::ecorpus::generate_legacy_fork(&out)) {
                 Ok(()) => 0,
                 Err(e) => {
                     eprintln!("gen-corpus failed: {e}");
@@ -709,6 +720,63 @@ fn c09_overlap_part(rep: &mut Report, tier: &str) {
     rep.add_count("traces_validated_against_impl", n);
 }
 
+/// C18 where the refusal is the storage's: a request that is answered with an error because a
+/// storage step failed was refused - what it had written by then must be gone again. Every
+/// single fault plan of the storage-trait and SQL-statement layers (thorough: VFS too), every
+/// request kind, two states, library and HTTP entry; kept: error answers that leave a state
+/// which is neither the one before nor the one after the request.
+fn c18_fault_part(rep: &mut Report, tier: &str) {
+    use crate::efault::FOp;
+    let quick = tier != "thorough";
+    let mut tasks = vec![];
+    for layer in if quick { vec!["trait", "sql"] } else { vec!["trait", "sql", "vfs"] } {
+        for spec in ["SqlLib", "SqlHttp"] {
+            for state in ["empty", "one-version", "chain+snapshot"] {
+                for op in FOp::all() {
+                    if state == "empty" && !matches!(op, FOp::AvNewClient | FOp::GetChild | FOp::GetSnapshot | FOp::AsSmall) {
+                        continue;
+                    }
+                    if matches!(op, FOp::As50k | FOp::Av10k) && quick {
+                        continue;
+                    }
+                    tasks.push(json!({"layer": layer, "spec": spec, "state": state, "op": op.name(), "double": false, "window": 0}));
+                }
+            }
+        }
+    }
+    let mut pool = crate::pool::Pool::spawn(threads(), "fault", &json!({"seed": seed()}));
+    let results = pool.map(&tasks);
+    drop(pool);
+    let (mut runs, mut kept) = (0u64, 0u64);
+    for (k, r) in results.iter().enumerate() {
+        match r {
+            Ok(res) => {
+                if let Some(e) = res["error"].as_str() {
+                    rep.machinery_errors.push(format!("{}: {e}", tasks[k]));
+                    continue;
+                }
+                runs += res["runs"].as_u64().unwrap_or(0);
+                for f in res["findings"].as_array().cloned().unwrap_or_default() {
+                    if f["class"] == "partial-effect" {
+                        kept += 1;
+                        rep.violations.push(Violation {
+                            property: "C18".into(),
+                            signature: format!("efault|{}|{}|{}|refused-but-written", tasks[k]["layer"].as_str().unwrap_or(""), tasks[k]["spec"].as_str().unwrap_or(""), tasks[k]["op"].as_str().unwrap_or("")),
+                            message: format!("[{} layer, {}, state {}, request {}] {} — fault {}", tasks[k]["layer"].as_str().unwrap_or(""), tasks[k]["spec"].as_str().unwrap_or(""), tasks[k]["state"].as_str().unwrap_or(""), tasks[k]["op"].as_str().unwrap_or(""), f["msg"].as_str().unwrap_or(""), f["fault"]),
+                            replay: json!({"engine": "efault", "task": tasks[k], "fault": f["fault"]}),
+                        });
+                    }
+                }
+            }
+            Err(e) => rep.machinery_errors.push(format!("fault worker: {e}")),
+        }
+    }
+    rep.cov("refused_by_a_storage_failure", json!({
+        "rule": "every single fault plan (k-th storage-trait call fails before/after taking effect; one kind of SQL statement aborted at statement level; thorough: k-th VFS call) of every request kind in three states, library and HTTP entry; a request answered with an error must leave either the state before it or - if the failure came after its commit - the complete state after it, never a part",
+        "scenarios": tasks.len(), "fault_runs": runs, "findings_for_this_property": kept,
+    }));
+}
+
 const SIZE_PART: [&str; 8] = ["C01", "C02", "C07", "C08", "C10", "C11", "C13", "C14"];
 
 fn seq_check(id: &str, tier: &str, replay: Option<&str>) -> i32 {
@@ -751,6 +819,9 @@ fn seq_check(id: &str, tier: &str, replay: Option<&str>) -> i32 {
     }
     if id == "C09" {
         c09_overlap_part(&mut rep, tier);
+    }
+    if id == "C18" {
+        c18_fault_part(&mut rep, tier);
     }
     rep.cov("explanation", json!("every state and transition counted is an execution of the real Server / actix handler / storage code; the reference model is compared on each one"));
     rep.assume("bounded depth and alphabet as listed under coverage.runs; states with equal canonical model state are merged after their stored state was compared with the model");
@@ -1485,6 +1556,24 @@ fn c05_check(tier: &str, replay: Option<&str>) -> i32 {
                     if dbl {
                         tasks.push(json!({"layer": layer, "spec": spec, "state": state, "op": op.name(), "double": true, "window": if quick { 10 } else { 1000 }}));
                     }
+                }
+            }
+        }
+    }
+    // the write lock held by somebody else for the first W attempts (alone and together with a
+    // statement-level failure)
+    let windows: Vec<usize> = if quick { (1..=20).chain([30, 45, 61, 75, 90, 105, 125, 140, 150, 165, 175, 200, 250]).collect() } else { (1..=260).collect() };
+    for spec in ["SqlLib", "SqlHttp"] {
+        for state in ["one-version", "chain+snapshot", "empty"] {
+            for op in FOp::all() {
+                if state == "empty" && !matches!(op, FOp::AvNewClient | FOp::AsSmall) {
+                    continue;
+                }
+                if matches!(op, FOp::As50k | FOp::Av10k | FOp::GetChild | FOp::GetSnapshot | FOp::AsDeclined | FOp::AvConflict) && (quick || state != "chain+snapshot") {
+                    continue;
+                }
+                for ch in windows.chunks(12) {
+                    tasks.push(json!({"layer": "busy", "spec": spec, "state": state, "op": op.name(), "double": false, "window": 0, "windows": ch}));
                 }
             }
         }
